@@ -132,6 +132,27 @@ func c20StackMake2(seed byte, n int) string {
 	return unsafex.BinaryToString(b)
 }
 
+// the symmetric direction: a short string built locally (it may live in the callee's frame) converted to bytes
+//
+//go:noinline
+func c20StackMakeS2B(seed byte, n int) []byte {
+	var scratch [24]byte
+	for i := range scratch {
+		scratch[i] = seed + byte(i)
+	}
+	s := string(scratch[:n]) // short strings that do not escape are built on the stack
+	return unsafex.StringToBinary(s)
+}
+
+//go:noinline
+func c20StackMakeS2B2(seed byte, n int) []byte {
+	s := ""
+	for i := 0; i < n; i++ {
+		s += string(rune(seed + byte(i)))
+	}
+	return unsafex.StringToBinary(s)
+}
+
 //go:noinline
 func c20Clobber(depth int) int {
 	var junk [256]byte
@@ -149,6 +170,18 @@ func c20Stack(c *mc.Ctx, k c20Case) {
 	variant := os.Getenv("VERIF_C20_VARIANT")
 	if variant == "" {
 		variant = "go121"
+	}
+	for _, mk := range []func(byte, int) []byte{c20StackMakeS2B, c20StackMakeS2B2} {
+		b := mk(byte(k.I), k.N)
+		c20Clobber(8)
+		ok := len(b) == k.N
+		for i := 0; ok && i < len(b); i++ {
+			ok = b[i] == byte(k.I)+byte(i)
+		}
+		if !ok {
+			c.Violate("conv", fmt.Sprintf("C20|%s|s2b|dangling-stack-memory", variant), fmt.Sprintf("[%s] StringToBinary of a short string built in the callee (%d bytes) returned a slice whose content changed after the callee returned and the stack was reused: %x", variant, k.N, b), k)
+			return
+		}
 	}
 	for _, mk := range []func(byte, int) string{c20StackMake, c20StackMake2} {
 		s := mk(byte(k.I), k.N)
